@@ -84,7 +84,9 @@ def queries(tier):
                                 unwind=70, timeout=1800))
             for op in (1, 2):
                 qs.append(Query("%s-%s-n9" % (nm, OPS[op]), "packed/packed.c", [], defs=dict(d, OP=op, NEL=9), checks="mem", unwind=70, timeout=1800))
-            if heavy:
+            # sorted operations: every instantiation of a spread of widths (a 24-bit / 16-bit-slot compact insert-sorted query
+            # ran for an hour without a verdict, so the thorough tier does not take the full cross product here)
+            if heavy and (nm.startswith("tree-") or d["BITS"] in (1, 2, 3, 5, 7, 8, 9, 12, 13, 16, 17, 20, 31, 32)):
                 for op in (3, 4, 5, 6, 7):
                     for nel in (0, 1, 2, 3, 4, 5):
                         if nel == 0 and op in (5,):
